@@ -237,6 +237,9 @@ fn compile_key(err: &str, header: &str) -> String {
     if (first.contains("invalid conversion from 'int' to") || first.contains("cannot initialize") || first.contains("assigning to")) && plain_enum_bitwise_line(first, header) {
         return "c16-bitwise-on-plain-enum".into();
     }
+    if first.contains("'NaN' was not declared") || first.contains("'inf' was not declared") || first.contains("use of undeclared identifier 'NaN'") || first.contains("use of undeclared identifier 'inf'") {
+        return "c16-non-finite-double-constant".into();
+    }
     "c16-compile-error".into()
 }
 
@@ -443,8 +446,9 @@ fn key_of(c: &CxxCase, kind: &str, msg: &str) -> String {
 
 /// Known finding F2c: a bitwise operator on a plain (non-flag) enum types its result as the enum.
 fn probe_plain_enum_bitwise(known: &Known, rr: &mut RunResult) {
-    for expr in ["a0.e0 | VSrc.ModeB", "a0.e0 & a0.e0", "VSrc.ModeA ^ a0.e0", "~a0.e0"] {
-        let qml = format!("import qmluic.QtWidgets\nQWidget {{\n    VSrc {{ id: a0 }}\n    VDst {{\n        id: t0\n        te: {expr}\n    }}\n}}\n");
+    // (second known finding probed here: a constant sub-expression folding to inf / NaN is printed as `inf` / `NaN`)
+    for (prop, expr) in [("te", "a0.e0 | VSrc.ModeB"), ("te", "a0.e0 & a0.e0"), ("te", "VSrc.ModeA ^ a0.e0"), ("te", "~a0.e0"), ("td", "a0.b0 ? 1.0 / 0.0 : a0.d0"), ("td", "Math.min(2.5 % 0.0, a0.d0)")] {
+        let qml = format!("import qmluic.QtWidgets\nQWidget {{\n    VSrc {{ id: a0 }}\n    VDst {{\n        id: t0\n        {prop}: {expr}\n    }}\n}}\n");
         let t = translate(&qml, "P0", Mode::Generate);
         rr.stats.evaluations += 1;
         if !t.accepted() {
